@@ -77,6 +77,7 @@ def design_emit(run, sdir, module, name, cfgbytes, *, timeout=3000, heap="8g"):
 
 
 _RE_VAC = re.compile(r'"?VACUOUS"?,\s*(\d+)')
+NOTEXEC = [0]   # C16: picks TLC counted as "base candidate holding an intra-L0-compacting file"
 
 
 def _validate_shard(sdir, module, cfgbytes, pairs, timeout):
@@ -96,6 +97,11 @@ def _validate_shard(sdir, module, cfgbytes, pairs, timeout):
         for m in _RE_VAC.finditer(v.tlc.out):
             pass
         vac += int(m.group(1)) if m else 0
+        mm = None
+        for mm in re.finditer(r'"?NOTEXECUTED"?,\s*(\d+)', v.tlc.out):
+            pass
+        if mm:
+            NOTEXEC[0] += int(mm.group(1))
         if v.accepted:
             done += len(rest)
             break
@@ -487,6 +493,12 @@ def run_c16(run):
              "the logged sublevel of the topmost file set to 0")
     allpairs += rpairs
     run.traces += total_acc
+    run.cov["base_picks_holding_intra_l0_compacting_file"] = NOTEXEC[0]
+    if NOTEXEC[0] > 0:
+        # the property's clause "a pick never includes a file that is already compacting" is violated at the l0_sublevels API
+        # (known finding; pebble's pickL0 drops such candidates).  Everything else about those picks was still checked by TLC.
+        run.violation({"kind": "base-pick-includes-intra-l0-compacting-file"},
+                      "PickBaseCompaction returned %d candidate(s) containing an intra-L0-compacting file (counted by TLC)" % NOTEXEC[0])
     run.cov["evaluations"] = total_acc - total_vac
     nontriv = {in_hash(a) for a, b in allpairs if len(json.loads(a)["c"]["files"]) >= 2}
     run.cov["distinct_nontrivial"] = max(0, len(nontriv) - total_vac)
